@@ -2,7 +2,7 @@
 PROPERTY = 'C12'
 LEVEL = 'model_checking'
 ENGINE = 'E3'
-RULE = ('bounded-exhaustive over class declarations: EVERY ordered class list (all permutations of all subsets) of length 1..3 (quick) / 1..4 (thorough) over the value universe {0,1,2,3,5,300}; for each list ALL '
+RULE = ('bounded-exhaustive over class declarations: EVERY ordered class list (all permutations of all subsets) of length 1..3 (quick) / 1..4 (thorough) over the value universe {0,1,2,3,5,300} (and of length 1..3 over the edge universe {0,65535,65536,131071} on 32-bit words); for each list ALL '
         '6^4 label columns over the universe (declared, undeclared and unused values all occur) x all 4^4 trace columns over {0,1,2,5}, packed, on ANOVA/NICV/SNR/MIA under both accumulation kernels; template '
         'building on every label column over {0,2,5,300}^5 for every ordered list of length 1..3 over that universe; TemplateAttack / TemplateDPAAttack for every ordered list of >=2 classes over {0,2,5,300} with '
         'undeclared values among the building traces and every hypothesis column over the declared values; automatic class sets for first-batch maxima {0,1,7,8,9,10,62,63,64,65,254,255}. '
@@ -21,6 +21,7 @@ DESIGN_REF = 'DESIGN.md section 3, C12'
 U = [0, 1, 2, 3, 5, 300]
 UT = [0, 2, 5, 300]
 MAXIMA = [0, 1, 7, 8, 9, 10, 62, 63, 64, 65, 254, 255]
+UE = [0, 65535, 65536, 131071]          # the 16-bit edge and the largest value the 2**17-entry class table can hold (32-bit intermediate words)
 
 
 def bound(tier):
@@ -41,6 +42,7 @@ def shards(tier, seed):
     lists = _lists(U, maxlen)
     k = 16 if tier == 'quick' else 48
     out = [{'name': 'partitioned-%02d' % i, 'kind': 'partitioned', 'part': i, 'parts': k, 'cost': 10} for i in range(k)]
+    out += [{'name': 'edge-values-%d' % i, 'kind': 'edge', 'part': i, 'parts': 4, 'cost': 12} for i in range(4)]
     out += [{'name': 'tplbuild-%d' % i, 'kind': 'tplbuild', 'part': i, 'parts': 4, 'cost': 8} for i in range(4)]
     out += [{'name': 'tplmatch-%d' % i, 'kind': 'tplmatch', 'part': i, 'parts': 2, 'cost': 8} for i in range(2)]
     out += [{'name': 'auto-%d' % i, 'kind': 'auto', 'part': i, 'parts': 4, 'cost': 9} for i in range(4)]
@@ -64,6 +66,11 @@ def run_shard(shard, ctx):
         for cl in _lists(U, maxlen)[shard['part']::shard['parts']]:
             _partitioned_list(col, ctx, np, {'kind': 'partitioned', 'classes': cl})
         col.guard(col.counters.get('kernel2_used', 0) > 0 and col.counters.get('kernel1_used', 0) > 0, 'vacuity: both kernels must run (%s)' % col.counters)
+    elif shard['kind'] == 'edge':
+        for cl in _lists(UE, 3)[shard['part']::shard['parts']]:
+            _partitioned_list(col, ctx, np, {'kind': 'partitioned', 'classes': cl, 'universe': UE})
+        for cl in _lists(UE, 2)[shard['part']::shard['parts']]:
+            _tplbuild_list(col, ctx, np, {'kind': 'tplbuild', 'classes': cl, 'universe': UE})
     elif shard['kind'] == 'tplbuild':
         for cl in _lists(UT, 3)[shard['part']::shard['parts']]:
             _tplbuild_list(col, ctx, np, {'kind': 'tplbuild', 'classes': cl})
@@ -114,7 +121,9 @@ def _partitioned_list(col, ctx, np, case):
     cl = case['classes']
     clock = env.install_clock(P)
     rec = env.install_recorder(P.PartitionedDistinguisherMixin)
-    X = all_columns([0, 1, 2, 5], 4); Y = all_columns(U, 4)
+    uni = case.get('universe') or U
+    ydt = 'uint16' if max(uni) < 65536 else 'uint32'
+    X = all_columns([0, 1, 2, 5], 4); Y = all_columns(uni, 4)
     D = {'anova': scared.ANOVADistinguisher, 'nicv': scared.NICVDistinguisher, 'snr': scared.SNRDistinguisher}
     for which in ('anova', 'nicv', 'snr'):
         ref, defined = stats.partitioned_ref_matrix(X, Y, cl, which)
@@ -122,7 +131,7 @@ def _partitioned_list(col, ctx, np, case):
         for prec, seq in (('float32', (1, 2)), ('float64', (1, 1))):
             d = D[which](partitions=cl, precision=prec)
             try:
-                env.forced_updates(d, [(X[:2].astype('uint8'), Y[:2].astype('uint16')), (X[2:].astype('uint8'), Y[2:].astype('uint16'))], seq, clock, rec)
+                env.forced_updates(d, [(X[:2].astype('uint8'), Y[:2].astype(ydt)), (X[2:].astype('uint8'), Y[2:].astype(ydt))], seq, clock, rec)
                 got = d.compute()
             except env.LostControl:
                 raise
@@ -134,7 +143,7 @@ def _partitioned_list(col, ctx, np, case):
     # MIA
     edges = [0, 2, 4, 6]
     ref, defined, tot = R.mi_matrix(X, Y, edges, cl)
-    for dt in ('uint16', 'int32'):
+    for dt in (ydt, 'int32'):
         d = scared.MIADistinguisher(bin_edges=edges, partitions=cl)
         try:
             d.update(X[:3].astype('uint8'), Y[:3].astype(dt)); d.update(X[3:].astype('uint8'), Y[3:].astype(dt))
@@ -143,7 +152,7 @@ def _partitioned_list(col, ctx, np, case):
             col.violation('C12/mia/raised', 'mia declared=%s: %s %s' % (cl, type(e).__name__, e), case); continue
         col.transitions += 3
         _report(col, np, 'C12/mia', 'mia', case, got, ref, defined, 1e-9, 1.0, X, Y)
-    col.sample({'declared_classes': cl, 'label_column': Y[:, 517].tolist(), 'trace_column': X[:, 77].tolist()}, limit=2)
+    col.sample({'declared_classes': cl, 'label_column': Y[:, 517 % Y.shape[1]].tolist(), 'trace_column': X[:, 77].tolist()}, limit=2)
     col.outcomes.add(tuple(cl))
 
 
@@ -155,14 +164,16 @@ def _tplbuild_list(col, ctx, np, case):
     N = 5
     rng = rng_for(ctx['seed'], 'c12-tplbuild')
     X = rng.randint(0, 12, (N, 2)).astype('float64')
-    Ycols = all_columns(UT, N)
+    uni = case.get('universe') or UT
+    ydt = 'uint16' if max(uni) < 65536 else 'uint32'
+    Ycols = all_columns(uni, N)
     T = tplbuild_class()
     for j in range(Ycols.shape[1]):
         y = Ycols[:, j]
         cnt = [int((y == c).sum()) for c in cl]
         d = T(partitions=cl, precision='float64')
         try:
-            d.update(X[:2], y[:2].reshape(-1, 1).astype('uint16')); d.update(X[2:], y[2:].reshape(-1, 1).astype('uint16'))
+            d.update(X[:2], y[:2].reshape(-1, 1).astype(ydt)); d.update(X[2:], y[2:].reshape(-1, 1).astype(ydt))
             tpl = d.compute()
         except Exception as e:
             col.violation('C12/tplbuild/raised', 'declared=%s labels=%s: %s %s' % (cl, y.tolist(), type(e).__name__, e), dict(case, y=y.tolist())); continue
